@@ -370,6 +370,23 @@ func runStream(t *testing.T, tape *Tape, w *World, variant string, steps int, ou
 					v = viol("C11", "stalled_empty", "%s has nothing outstanding, yet %d deliverable message(s) are not being sent (e.g. %v); flow control %d msgs / %d bytes", cl.id, len(must), must[0], cl.maxMsgs, cl.maxBytes)
 				} else if remMsgs > 0 && allFit {
 					v = viol("C11", "stalled_with_capacity", "%s has %d/%d messages and %d/%d bytes outstanding, yet %d deliverable message(s) that all fit are not being sent (e.g. %v)", cl.id, out0, cl.maxMsgs, cl.bytes(), cl.maxBytes, len(must), must[0])
+				} else if remMsgs > 0 {
+					// some fit, some do not. Which candidates a fetch looks at when there are
+					// more of them than free message slots is not specified; when every
+					// possibly-due delivery fits into the free slots, one that also fits the
+					// free bytes has to be sent
+					may := 0
+					for _, e := range sub.EDs {
+						if (e.State == stOut || e.Fuzzy) && e.mayAlive(now) && e.mayDue(now) {
+							may++
+						}
+					}
+					for _, e := range must {
+						if len(e.Msg.Data) <= remBytes && may <= remMsgs && may <= 100 {
+							v = viol("C11", "stalled_behind_large", "%s has %d/%d messages and %d/%d bytes outstanding and %d possibly due deliveries (all within the free message slots); %v fits the free bytes but is not being sent", cl.id, out0, cl.maxMsgs, cl.bytes(), cl.maxBytes, may, e)
+							break
+						}
+					}
 				}
 				if v != nil {
 					break
